@@ -17,7 +17,9 @@ Inductive src_item :=
 | SRaise (e : Z)       (* next() raises an Exception with code e *)
 | SRaiseBase (e : Z).  (* next() raises a BaseException that is not an Exception (StopRequested) *)
 
-Record cfg := { maxsize : nat; src : list src_item; stop_after : option nat }.
+Record cfg := { maxsize : nat; src : list src_item; stop_after : option nat;
+                 drain_join : bool     (* _finalize keeps draining the queue while it waits for the worker (the code as repaired);
+                                          false = drain once, then join without a limit (the code before repair C) *) }.
 
 Inductive item := Data (x : Z) | Fin | Stp | Exc (e : Z).
 
@@ -179,7 +181,9 @@ Definition step_c (g : cfg) (s : state) : option (state * event) :=
       | WDead e => (* mpservice Thread.join re-raises the worker's exception *)
           Some (upd_c s (CDone (Raised e)),
                 mkEv T_C OP_JOIN 0)
-      | _ => None
+      | _ => if drain_join g
+             then Some (upd_c s (CDrainChk o), mkEv T_C OP_JOIN 1)     (* join(0.01) timed out: drain again *)
+             else None
       end
   | CDone _ => None
   end.
